@@ -133,7 +133,9 @@ def run_shard(mod, sc, tier, shard, nshards, verif_seed, max_examples_override=N
     caselog = CaseLog(os.environ.get("VERIF_CASELOG"))
 
     def run_one(case):
-        if time.time() - t0 > budget:
+        # the wall-clock budget only stops *new* exploration; once a failure is being shrunk/replayed every example
+        # must be executed, or Hypothesis would see the failing example pass and report it as flaky
+        if not stats.frozen and time.time() - t0 > budget:
             stats.budget_hit = True
             return
         caselog.add(sc.name, case)
